@@ -47,7 +47,7 @@ class SiteSpecHooks:
         """sites with func='[]=' and container=<variable name>: obligations on the key / value stored."""
         import ast as _ast
         for site in self.sites:
-            if site['func'] != '[]=' or not (isinstance(tgt.value, _ast.Name) and tgt.value.id == site['container']):
+            if site['func'] != '[]=' or _ast.unparse(tgt.value).replace(' ', '') != site['container'].replace(' ', ''):
                 continue
             t, facts = eng.spec(site['spec'], st, {'__key': k, '__arg': val}, mode='prove')
             s2 = st.fork()
